@@ -84,8 +84,19 @@ func (it *interpreter) unstubbed(fr *frame, fn *ssa.Function, args []value) valu
 	}
 	switch res.Len() {
 	case 0:
-		if it.res != nil {
-			it.res.noteUnstubbed(name, fr.caller)
+		// A call with no result cannot hand back poison: skipping it
+		// silently would drop its side effects. Only calls known to have
+		// none that the properties observe are skipped; anything else ends
+		// the path as an engine error (inconclusive), never as a verdict.
+		if f := os.Getenv("SYMGO_VOID_LOG"); f != "" {
+			if fh, err := os.OpenFile(f, os.O_APPEND|os.O_CREATE|os.O_WRONLY, 0o644); err == nil {
+				fmt.Fprintln(fh, name)
+				fh.Close()
+			}
+			return nil
+		}
+		if !voidSkippable(name) {
+			abortf("library call %s has no model and no result to poison", name)
 		}
 		return nil
 	case 1:
@@ -96,6 +107,22 @@ func (it *interpreter) unstubbed(fr *frame, fn *ssa.Function, args []value) valu
 		t[i] = mk(res.At(i).Type())
 	}
 	return t
+}
+
+// voidSkippable lists result-less library calls whose effects no property
+// observes (output and diagnostics).
+func voidSkippable(name string) bool {
+	for _, p := range voidSkipPrefixes {
+		if strings.HasPrefix(name, p) {
+			return true
+		}
+	}
+	return false
+}
+
+var voidSkipPrefixes = []string{
+	"log.", "(*log.Logger).", "runtime.GC", "runtime.Gosched", "runtime.KeepAlive", "runtime.SetFinalizer",
+	"runtime/debug.", "(*testing.common).", "(*testing.T).", "(*os.File).Sync",
 }
 
 func (r *PathResult) noteUnstubbed(name string, caller *frame) {
@@ -645,6 +672,30 @@ func init() {
 			}
 			it.mutexLock(fr, p)
 			return true
+		},
+		"(*sync.Once).Do": func(fr *frame, args []value) value {
+			// The Once value's address serves as its lock; the done flag
+			// lives beside the atomics. Concurrent callers block until the
+			// first call's function has returned, as the real one does.
+			it := fr.i
+			p := ptrArg(fr, args[0], "Once.Do")
+			it.mutexLock(fr, p)
+			done := false
+			if c := it.atomics[p]; c != nil {
+				done, _ = (*c).(bool)
+			}
+			if !done {
+				// set on return or panic of f, like the deferred store in the real Do
+				func() {
+					defer func() {
+						var v value = true
+						it.atomics[p] = &v
+					}()
+					call(it, fr, token.NoPos, args[1], nil)
+				}()
+			}
+			it.mutexUnlock(fr, p)
+			return nil
 		},
 		"(*sync.WaitGroup).Add": func(fr *frame, args []value) value {
 			fr.i.wgAdd(fr, ptrArg(fr, args[0], "WaitGroup.Add"), int(asInt64(args[1])))
